@@ -301,6 +301,20 @@ func runRecv(cfg recvCfg, rng *rand.Rand) (o recvObs) {
 		raw.Out.Chunk = 1
 	case "rand":
 		raw.Out.ChunkFn = func() int { return 1 + rng.Intn(9) }
+	case "split2":
+		// two transport reads: the boundary falls at a seeded position, often inside a header or a payload
+		first := true
+		at := 1
+		if n := len(cfg.stream); n > 1 {
+			at = 1 + rng.Intn(n-1)
+		}
+		raw.Out.ChunkFn = func() int {
+			if first {
+				first = false
+				return at
+			}
+			return 1 << 20
+		}
 	}
 	data := cfg.stream
 	if cfg.cutAt >= 0 {
@@ -677,7 +691,9 @@ func init() {
 									o := runRecv(recvCfg{v: v, stream: cs.bytes, cutAt: -1}, rng)
 									checkC03(rep, id, ls, row, &cs, &o)
 									atomic.AddInt64(&evals, 1)
-									rep.sample(id)
+									if len(id.Names) >= 3 && id.V.Mode != "off" {
+										rep.sample(id)
+									}
 								}
 							}
 						}
